@@ -192,4 +192,28 @@ def run(tier):
                "the recursive-ascent error arm emits a token pull before returning the error: %s" % [tu.short(p) for p in pulls],
                key="ascent-error-arm-pulls", file=ws[i]["file"], line=ws[i]["line"], fn=ws[i]["fn"])
     rep.floor("error arms in ascent write_state_fn", n_arm, 1)
+    # ascent: the EOF error location is the END (.2) of the last symbol on the stack; the token is reported as is
+    loc_t = [m for m in ws if re.search(r"·\w+·location\b", tu.cooked(m["fmt"])) or re.search(r"\|sym\|\s*sym\.", tu.cooked(m["fmt"]))]
+    n_loc = 0
+    for m in loc_t:
+        c = tu.cooked(m["fmt"])
+        for mm in re.finditer(r"sym(?:·\w+·)?\s*\.\s*(\d)", c):
+            n_loc += 1
+            rep.ob("ascent.eof-location-is-end-of-last-symbol", "%s `%s`" % (tu.short(m), c.strip()[:80]), mm.group(1) == "2",
+                   "the recursive-ascent EOF error takes field .%s of the last symbol (the end of the last token is field .2)" % mm.group(1),
+                   key="ascent-eof-location:.%s" % mm.group(1), file=m["file"], line=m["line"], fn=m["fn"])
+    rep.floor("ascent EOF location projections", n_loc, 2)
+    tok_t = [m for m in ws if re.match(r"^\s*token\s*:", tu.cooked(m["fmt"]))]
+    for m in tok_t:
+        c = tu.cooked(m["fmt"]).strip()
+        rep.ob("ascent.error-token-verbatim", "%s `%s`" % (tu.short(m), c), re.fullmatch(r"token:\s*·\w+·token,", c) is not None,
+               "the unrecognized token is not reported as pulled", key="ascent-error-token", file=m["file"], line=m["line"], fn=m["fn"])
+    # table-driven: UnrecognizedToken.token is the lookahead argument, unchanged
+    for bi, si, s in ute.stmts():
+        if s["k"] == "assign" and s["r"]["k"] == "agg" and s["r"].get("variant") == "UnrecognizedToken":
+            idx = s["r"]["fields"].index("token")
+            o = origins(ute, s["r"]["ops"][idx])
+            rep.ob("error.token-verbatim", "unrecognized_token_error UnrecognizedToken.token <- %s" % sorted(o),
+                   all(d[0] == "arg" and d[1] == 2 and d[2][-2:] == ("Some", "0") for d in o) and bool(o),
+                   "the reported token is not the offending lookahead itself", key="error-token-source", file=ute.relfile(), line=s["ln"], fn=ute.path)
     return rep
